@@ -1,12 +1,14 @@
 /- Operation table of the model driver: one import and one `++` entry per ops module. -/
 import Driver.Ops.C07
 import Driver.Ops.C17
+import Driver.Ops.C11
 namespace ZVD
 
 def allOps : OpTable :=
   [("ping", fun _ => pure "ok pong")]
   ++ opsC07
   ++ opsC17
+  ++ opsC11
 
 def dispatch (op : String) (a : Args) : Except String String :=
   match allOps.find? (·.1 == op) with
